@@ -302,7 +302,7 @@ func checkAssembled(wd g.WarriorData, gc g.SimulatorConfig) string {
 func nearValid(r *Rng, text string, ninstr int, length int) (string, string) {
 	lines := strings.Split(text, "\n")
 	pick := func() int { return r.Intn(len(lines)) }
-	switch r.Intn(8) {
+	switch r.Intn(9) {
 	case 0: // a mode swapped to a '94-only one
 		for t := 0; t < 10; t++ {
 			i := pick()
@@ -397,6 +397,32 @@ func nearValid(r *Rng, text string, ninstr int, length int) (string, string) {
 		return text, "unchanged"
 	case 6:
 		return mutateTokens(r, text), "token-mutated"
+	case 7: // an EQU whose value starts with a mode character, used as an operand that has no mode of its own
+		name := "qm"
+		val := []string{"#1", "@2", "<3", "$1", "#0", "*1", ">2"}[r.Intn(7)]
+		for t := 0; t < 10; t++ {
+			i := pick()
+			tl := strings.TrimSpace(lines[i])
+			if tl == "" || strings.HasPrefix(tl, ";") || strings.Contains(strings.ToLower(tl), "equ") || strings.Contains(strings.ToLower(tl), "for") {
+				continue
+			}
+			body := lines[i]
+			cm := ""
+			if k := strings.Index(body, ";"); k >= 0 {
+				body, cm = body[:k], body[k:]
+			}
+			if k := strings.LastIndex(body, ","); k >= 0 {
+				body = body[:k+1] + " " + name + " "
+			} else if f := strings.Fields(body); len(f) >= 2 {
+				f[len(f)-1] = name
+				body = strings.Join(f, " ") + " "
+			} else {
+				continue
+			}
+			lines[i] = body + cm
+			return name + " equ " + val + "\n" + strings.Join(lines, "\n"), "equ-with-mode"
+		}
+		return text, "unchanged"
 	default:
 		return text, "unchanged"
 	}
